@@ -246,6 +246,20 @@ def main(tier):
         text = "JSIGHT 0.3\n" + (tdefs if k % 2 else "") + ublocks[x][0] + ublocks[y][0] + ("" if k % 2 else tdefs)
         cases.append(rel.case("mx%d" % k, text))
         casecases["mx%d" % k] = (text, ublocks[x][1], ublocks[x][2], ublocks[y][1], ublocks[y][2])
+    # parameters whose name is a key shortcut: {@slug} in the path, @slug: "x" in the Path body
+    ks = 'TYPE @zslug\n  "s"\n'
+    for k, (body, iid, want) in enumerate([
+            ('URL /zks/{@zslug}/toys/{toy}\n  Path\n  {\n    @zslug: "x",\n    "toy": 2\n  }\n  GET\n    200 any\n', "http GET /zks/{@zslug}/toys/{toy}", ["@zslug", "toy"]),
+            ('GET /zks/{toy}/{@zslug}\n  Path\n  {\n    "toy": 2,\n    @zslug: "x"\n  }\n  200 any\n', "http GET /zks/{toy}/{@zslug}", ["toy", "@zslug"]),
+            ('URL /zks/{@zslug}\n  Path\n  {\n    @zslug: "x"\n  }\n  GET\n    200 any\n  POST /zks/{@zslug}/more\n    200 any\n', "http POST /zks/{@zslug}/more", ["@zslug"])]):
+        text = "JSIGHT 0.3\n" + (ks + body if k % 2 else body + ks)
+        cases.append(rel.case("ks%d" % k, text))
+        casecases["ks%d" % k] = (text, iid, want, iid, want)
+    for k, body in enumerate(['GET /zks/{id}\n  Path\n  {\n    "id": 1,\n    @zslug: "x"\n  }\n  200 any\n',
+                              'URL /zks/{id}\n  Path\n  {\n    @zslug: "x",\n    "id": 1\n  }\n  GET\n    200 any\n']):
+        t = "JSIGHT 0.3\n" + ks + body
+        cases.append(rel.case("xks%d" % k, t))
+        rej["xks%d" % k] = ("unused_property_key_shortcut", {"doc": ["ks%d" % k]}, t)
     # one file with a method and its Path directive included under two (three) URL blocks: each inclusion binds the
     # parameter of ITS path
     item = '  GET\n    Path\n    {\n      "id": 1\n    }\n    200 any\n'
